@@ -9,7 +9,9 @@ intersection", "level not selected", "duplicate in the de-dup window" and "nothi
 the all / uncached / stale filter" (C11.c); the selection predicates -- sub tiles are kept iff
 all_subtiles or the task intersects them, CONTAINS/INTERSECTS/NONE are distinct with NONE
 falsy, the walk starts from the coverage extent in the grid SRS, sub boxes are limited by the
-component-wise intersection (C11.d)."""
+component-wise intersection (C11.d).
+Added in round 4: the coverage keeps its holes when it is transformed (C11.j, shared C17.i); the
+progress key of a seed task names its levels (C11.k)."""
 import ast
 
 from ..engine import rule
